@@ -21,6 +21,7 @@ type Scratch struct {
 	Helpers    string // instrumented copy of the runtime module
 	Sim        string // copy of /verif/sim
 	Worker     string // engine-1 worker binary
+	Pristine   string // uninstrumented copy of internal/gontainer (the self-configuration and its checked-in output)
 	RepoRep    *instr.Report
 	HelpersRep *instr.Report
 	BuildS     float64
@@ -139,6 +140,10 @@ func Buildsim(repo string) (*Scratch, error) {
 	if err != nil {
 		return s, err
 	}
+	s.Pristine = filepath.Join(s.Dir, "pristine")
+	if err := copyTree(filepath.Join(s.Repo, "internal", "gontainer"), filepath.Join(s.Pristine, "internal", "gontainer"), false); err != nil {
+		return s, err
+	}
 	s.HelpersRep, err = instr.Run(instr.Options{Dir: s.Helpers, MapRange: true, SkipBroken: true, Env: GoEnv()})
 	if err != nil {
 		return s, fmt.Errorf("instrumenting runtime module: %w", err)
@@ -154,7 +159,7 @@ import "verifsim/bsim"
 func main() {
 	bsim.WorkerMain(bsim.Target{
 		Main: origMain,
-		SetBuild: func(v, c, d string) { version, commit, date = v, c, d },
+		SetBuild: func(v, c, d, dirty string) { version, commit, date, isGitDirty = v, c, d, dirty },
 	})
 }
 `
@@ -167,4 +172,16 @@ func main() {
 	}
 	s.BuildS = time.Since(t0).Seconds()
 	return s, nil
+}
+
+// RebuildWorker rebuilds the worker after the scratch tree changed (C19 generation 2). The
+// regenerated container file gets the same seams as the checked-in one had.
+func RebuildWorker(s *Scratch) error {
+	if _, err := instr.Run(instr.Options{Dir: s.Repo, Patterns: []string{"./internal/gontainer"}, MapRange: true, World: true, Env: GoEnv()}); err != nil {
+		return fmt.Errorf("instrumenting regenerated file: %w", err)
+	}
+	if _, err := run(s.Repo, GoEnv(), "go", "build", "-o", s.Worker, "."); err != nil {
+		return err
+	}
+	return nil
 }
